@@ -142,7 +142,7 @@ func (w *world) replayHistory(hi int, h history) {
 			g.emit(map[string]interface{}{"event": "Activate"})
 		case "expire":
 			sl := slots[st.S]
-			deadline := time.Now().Add(5 * time.Second)
+			deadline := time.Now().Add(10 * time.Second)
 			for w.srv.SessManager.SessionPresent(sl.id) {
 				if time.Now().After(deadline) {
 					vh.Fatalf("session did not expire")
